@@ -7,6 +7,13 @@ use serde_json::Value;
 
 pub fn check(name: &str, case: &Value, v: &Violation) -> bool {
     match name {
+        "root_title_is_also_a_definition" => case.get("history").and_then(|h| h.as_array()).map(|steps| steps.iter().any(|st| {
+            let Some(doc) = st.get("doc") else { return false };
+            match (doc.get("title").and_then(|t| t.as_str()), doc.get("definitions").and_then(|d| d.as_object())) {
+                (Some(t), Some(defs)) => defs.contains_key(t),
+                _ => false,
+            }
+        })).unwrap_or(false),
         "allof_integer_and_number" => {
             let txt = case.get("members").map(|m| m.to_string()).unwrap_or_default() + &case.get("base").map(|m| m.to_string()).unwrap_or_default();
             txt.contains("\"type\":\"number\"") && txt.contains("\"type\":\"integer\"")
